@@ -184,6 +184,25 @@ def run_unit(path, rlimit=None, seed=None, extra_args=(), quarantine=()):
     for name in u.mustfail:
         res['mustfail'].append(dict(fn=name, failed_as_required=name in mf_ok))
     missing = [n for n in u.mustfail if n not in mf_ok]
+    # lost anchors (an annotated loop / proof position that is no longer there):
+    #  - the function verifies without the annotation -> nothing is undecided
+    #  - it fails, and only loop annotations were lost, and no loop is left in it -> straight-line code needs no invariant: the failure stands
+    #  - otherwise the failure may be the missing annotation's fault -> undecided, never an alarm
+    lost = [x for x in u.soft_undecided if x.get('anchor')]
+    if lost:
+        keep_soft = [x for x in u.soft_undecided if not x.get('anchor')]
+        for fnname in sorted(set(x['fn'] for x in lost)):
+            mine = [x for x in lost if x['fn'] == fnname]
+            fails = [fl for fl in real if fl['fn'] == fnname]
+            if not fails:
+                res.setdefault('anchors_not_needed', []).extend(x['msg'] for x in mine)
+            elif all(x['anchor'] == 'loop' and x['loops_left'] == 0 for x in mine):
+                res.setdefault('anchors_not_needed', []).extend(x['msg'] for x in mine)
+            else:
+                real = [fl for fl in real if fl['fn'] != fnname]
+                keep_soft.extend(mine)
+                res.setdefault('suppressed_after_lost_anchor', []).extend(fl['label'] or fl['kind'] for fl in fails)
+        u.soft_undecided = keep_soft
     # residual clauses: reported only when none of the clauses they are the remainder of failed
     failed_labels = set(fl['label'] for fl in real if fl['label'])
     kept = []
